@@ -23,7 +23,7 @@ MANIFEST = dict(
          "signature against the named input.  The same requests are also sent as protocol messages (SignDelayedPaymentToUs, "
          "SignRemoteHtlcToUs, SignPenaltyToUs, their SignAny* variants, SignLocalHtlcTx, SignAnyLocalHtlcTx, SignRemoteHtlcTx) "
          "through the Root/ChannelHandler with the handler's glue modelled (input index, PSBT amount, wallet path from the "
-         "PSBT output's key origin, channel look-up) and the property evaluated on what was signed.",
+         "PSBT output's key origin, channel look-up) and the property evaluated on what was signed.  C09_feerate_estimate_is_source: the feerate estimate of the model IS the source's (estimate_feerate_per_kw translated on every run by tools/gen_rustfn.py into Gen/TxUtilGen.v and proved equal to the model's definition for every u64 fee and non-zero weight, both build profiles).",
     design="§4 C09",
     note=lib.TB + "Premises visible in the theorems: sighash injective on the covered fields and hash equality decidable "
          "(instantiated by the identity in the executable comparison, C09_htlc_premises_satisfiable); commitment type other "
